@@ -248,6 +248,12 @@ func (e *env) buildTx(w []string) string {
 		e.tagHash[tag] = h
 		e.hashTag[string(h)] = tag
 	}
+	// an instance stands for one signed transaction (one full hash)
+	for _, o := range e.insts {
+		if bytes.Equal(o.tx.FullHash(), tx.FullHash()) {
+			return "bad-op:same-full-hash"
+		}
+	}
 	e.insts[id] = &inst{id: id, tag: tag, key: key, sig: fSig == "1", exp: fExp, fee: fFee == "1", chain: fChain == "1",
 		ok: fSig == "1" && fFee == "1" && fChain == "1" && fRun == "1", tx: tx}
 	return "ok"
